@@ -173,7 +173,9 @@ class Snapshot:
         from simprocesd.model.factory_floor.asset import Asset
         self.state = (random.getstate(), Asset._id_counter)
         with instrument.probing():
-            self.copy = copy.deepcopy(self.model)
+            memo = {}
+            copy.deepcopy(self.model.system, memo)
+            self.copy = copy.deepcopy(self.model, memo)
 
     def __deepcopy__(self, memo):
         return Snapshot(None, False)
@@ -229,7 +231,10 @@ def run_model_with_copy(spec, seed, cut, total):
         m.system.simulate(cut, print_summary=False)
         st, idc = random.getstate(), Asset._id_counter
         with instrument.probing():
-            mc = copy.deepcopy(m)
+            # the System itself is what a user copies: it is traversed first, the harness's wrapper afterwards
+            memo = {}
+            copy.deepcopy(m.system, memo)
+            mc = copy.deepcopy(m, memo)
             mc.system.env.run(total - cut)
             d_copy = digest(mc, base)
         random.setstate(st)
@@ -407,30 +412,58 @@ def run(sh):
         seed = core.stable_int(sh.seed, 'C14', i) % (1 << 30)
         rng = random.Random(seed)
         spec = modelgen.generate(seed, profiles[i % 4])
+        if i % 6 == 5:
+            spec = modelgen.generate_shared_cell(seed)       # permanent competition for one shared cell
         total = sum(spec['horizon'])
         spec['horizon'] = [total]
         spec.pop('between', None)
         case = {'engine': 'repro', 'spec': spec, 'seed': seed}
         try:
             # (a) same seed twice (native random tie-breaks), different id offsets; another seed
-            if i % 3 == 0:
+            if i % 3 == 0 or i % 4 == 1 or i % 4 == 0:
                 spec['default_names'] = True         # devices named <Class>_<id> by the library
-            d1, ev1, _ = run_model(spec, seed, [total], 'native', offset=0)
+            from simprocesd.model.factory_floor.asset import Asset as _A0
+            c0 = _A0._id_counter
+            d1, ev1, m1 = run_model(spec, seed, [total], 'native', offset=0)
             # an id offset chosen so that the model's assets straddle a power of ten (Source_9 / Source_10 ...)
             from simprocesd.model.factory_floor.asset import Asset as _A
             c = _A._id_counter
             target = 10 ** len(str(c))
             if target - c < 20000:
                 nsrc = len([it for it in spec['items'] if it['kind'] == 'source'])
-                if nsrc >= 2:
+                if nsrc >= 2 and rng.random() < 0.4:
                     k = rng.randint(2, nsrc)        # the power of ten falls between two sources (created first)
                 else:
-                    k = rng.randint(1, max(1, len(spec['items'])))
-                d4, ev4, _ = run_model(spec, seed, [total], 'native', offset=max(0, target - c - k))
-                if d4 != d1:
-                    sh.violation('same_seed_differs', f'two runs with seed {seed} differ when the asset ids straddle '
-                                 f'{target}: {first_diff(d1, d4)}', case, engine='repro')
-                else:
+                    # ... or anywhere among the model's assets (group paths, gates, machines; groups create two
+                    # internal assets each)
+                    k = rng.randint(1, max(1, 2 * len(spec['items'])))
+                ks = [k]
+                if spec.get('default_names'):
+                    # aimed: the power of ten exactly between two paths of one shared group (their default names then
+                    # sort differently as strings than as numbers)
+                    by_group = {}
+                    for it in spec['items']:
+                        if it['kind'] == 'path':
+                            by_group.setdefault(it['group'], []).append(m1.devs[it['id']].id)
+                    for ids in by_group.values():
+                        if len(ids) >= 2:
+                            for j in range(1, len(ids)):
+                                # (the k-th asset of the model gets the id `target`: exactly this path)
+                                ks.append(sorted(ids)[j] - c0)
+                                sh.count('id_offsets_between_two_paths_of_a_group')
+                if spec.get('default_names'):
+                    # default names carry the ids: the boundary is moved across several pairs of assets
+                    ks += rng.sample(range(1, 2 * len(spec['items']) + 2), min(8, 2 * len(spec['items'])))
+                for k in ks:
+                    c = _A._id_counter
+                    target = 10 ** len(str(c))
+                    if target - c >= 20000:
+                        break
+                    d4, ev4, _ = run_model(spec, seed, [total], 'native', offset=max(0, target - c - k))
+                    if d4 != d1:
+                        sh.violation('same_seed_differs', f'two runs with seed {seed} differ when the asset ids straddle '
+                                     f'{target} ({k} assets below it): {first_diff(d1, d4)}', case, engine='repro')
+                        break
                     sh.count('same_seed_pairs_equal')
                     sh.count('id_offsets_straddling_a_power_of_ten')
             d2, ev2, _ = run_model(spec, seed, [total], 'native', offset=rng.choice([1, 3, 5, 50, 500]))
@@ -490,10 +523,11 @@ def run(sh):
             sh.notes.append(f'C14 case crashed: {type(e).__name__}: {e} {traceback.format_exc()[-600:]}')
     # (d) the whole model deep-copied in the middle of the simulation: the copy, continued on its own, and the
     # original, continued afterwards, both end like the run that was never copied
-    for i in sh.share(48 if sh.tier == 'quick' else 6000):
-        seed = core.stable_int(sh.seed, 'C14copy', i) % (1 << 30)
-        rng = random.Random(seed)
-        spec = modelgen.generate(seed, ['general', 'routing', 'resources', 'faults', 'batching'][i % 5])
+    for i in sh.share(144 if sh.tier == 'quick' else 12000):
+        # (three copy instants per generated model)
+        seed = core.stable_int(sh.seed, 'C14copy', i // 3) % (1 << 30)
+        rng = random.Random(seed * 3 + i % 3)
+        spec = modelgen.generate(seed, ['general', 'routing', 'resources', 'faults', 'batching', 'routing'][(i // 3) % 6])
         total = sum(spec['horizon'])
         spec['horizon'] = [total]
         spec.pop('between', None)
